@@ -27,7 +27,33 @@ Ltac c05_consts :=
            lazymatch n with n' => fail | _ => change (pow x n) with (pow x n') end
          end.
 
-Ltac c05_cert := c05_consts; cert.
+(* resolve every decision, innermost first: after [destruct] each branch whose new
+   hypothesis Interval refutes is closed at once, so the work is linear in the number of [if]s *)
+Ltac c05_kill H :=
+  exfalso;
+  lazymatch type of H with
+  | ~ (?a < ?b) => apply H; interval with (i_prec 90)
+  | ~ (?a > ?b) => apply H; interval with (i_prec 90)
+  | ~ (?a <= ?b) => apply H; interval with (i_prec 90)
+  | ~ (?a >= ?b) => apply H; interval with (i_prec 90)
+  | (?a < ?b) => apply (Rlt_not_le _ _ H); interval with (i_prec 90)
+  | (?a > ?b) => apply (Rlt_not_le _ _ H); interval with (i_prec 90)
+  | (?a <= ?b) => apply (Rle_not_lt _ _ H); interval with (i_prec 90)
+  | (?a >= ?b) => apply (Rle_not_lt _ _ (Rge_le _ _ H)); interval with (i_prec 90)
+  end.
+
+Ltac c05_split :=
+  repeat match goal with
+         | |- context [if ?d then _ else _] =>
+           lazymatch d with
+           | context [if _ then _ else _] => fail
+           | _ => let H := fresh "Hd" in destruct d as [H|H]; try (solve [c05_kill H])
+           end
+         end.
+
+Ltac c05_cert :=
+  c05_consts; cbv zeta; unfold Rmax, Rmin, Rpower; c05_split;
+  interval with (i_prec 90).
 
 (* value of the triangular response at a bin through the all-bins theorem *)
 Ltac c05_tri :=
